@@ -187,7 +187,10 @@ func inject(rt *rapid.T, src string, cuts []int, tmpl bool) (string, string) {
 			if !tmpl {
 				continue
 			}
-			list = append(list, ins{at, " ?><b>html é</b>\r\n<?php "})
+			// a closing tag in the middle of a line, at the end of a line (LF / CRLF directly after ?>), and
+			// several blocks in a row
+			html := []string{" ?><b>html é</b>\r\n<?php ", " ?>\n<b>html é</b>\n<?php\n", " ?>\r\n<p>x</p>\r\n<?php\r\n", " ?>\n<?php ?>\n\n<i>y</i><?php "}[rapid.IntRange(0, 3).Draw(rt, "htmlk")]
+			list = append(list, ins{at, html})
 			names = append(names, "inline-html")
 			continue
 		}
